@@ -284,6 +284,20 @@ theorem threshold_within_the_advertised_window (winA maxA winB maxB nthr : Nat) 
   · show winA / 10 ≤ winA
     exact Nat.div_le_self _ _
 
+/-- **`in_window_sofar` is only read and written under the channel lock**: every mention of it inside
+    `_check_add_window` is lexically inside the `self.lock` region, and nothing else touches it but the constructor
+    and `_set_window` (before the channel is active) — table generated from the AST of channel.py on this run.
+    `_check_add_window` is entered by up to three threads (a `recv` reader, a `recv_stderr` reader, the transport
+    thread discarding extended data); this fact is what makes it ONE atomic action of the model (`check`, `feedExt`),
+    which `conservation` / `every_byte_counts_back` rely on: an unlocked load … store of the counter loses one
+    caller's bytes, and lost credit takes the sender's window to zero for good. -/
+theorem sofar_accounting_is_under_the_lock :
+    (∀ a ∈ PV.Generated.ChanLock.sofarAccesses,
+      a.1 = "_check_add_window" ∨ (a.2.1 = true ∧ (a.1 = "__init__" ∨ a.1 = "_set_window"))) ∧
+    (∀ a ∈ PV.Generated.ChanLock.sofarAccesses, a.1 = "_check_add_window" → a.2.2 = true) ∧
+    (PV.Generated.ChanLock.sofarAccesses.any fun a => a.1 == "_check_add_window" && a.2.1) = true := by
+  decide
+
 /-! ## several parked senders: nobody is left asleep (notify_all vs notify) -/
 
 /-- how the code wakes sleepers, read from the table generated from the AST of channel.py on this run: a call
